@@ -785,6 +785,40 @@ pub fn run_stdio(ops: &[Op], expected: &[Value], pacing: &mut Dice<'_>) -> Resul
 pub fn run(ctx: &Ctx) -> i32 {
     let mut ev = Evidence::new("C20", ctx.tier, ctx.seed, RULE);
     let mut rep = Report::new("C20");
+    // saved reproductions: the history is regenerated from its choice stream and run in-process
+    // and over stdio
+    let files = match &ctx.replay {
+        Some(p) => vec![p.clone()],
+        None => super::replay_files("C20"),
+    };
+    for f in &files {
+        let Ok(s) = std::fs::read_to_string(f) else { continue };
+        let Ok(v) = serde_json::from_str::<Value>(&s) else { continue };
+        let Some(stream) = v["replay"]["stream"].as_array() else { continue };
+        let stream: Vec<u32> = stream.iter().filter_map(|x| x.as_u64().map(|x| x as u32)).collect();
+        let ops = gen_history(&stream);
+        ev.eval();
+        ev.label("replayed");
+        match run_inprocess(&ops) {
+            Err(mut v) => {
+                v.replay["stream"] = json!(stream);
+                rep.violation(v)
+            }
+            Ok(o) => {
+                let tail: Vec<u32> = stream.iter().rev().take(100).copied().collect();
+                let mut pacing = Dice::new(&tail);
+                if let Err(mut v) = run_stdio(&ops, &o.responses, &mut pacing) {
+                    v.replay["stream"] = json!(stream);
+                    rep.violation(v);
+                }
+            }
+        }
+    }
+    if ctx.replay.is_some() {
+        let code = rep.finish(&mut ev);
+        ev.write();
+        return code;
+    }
     let cases = ctx.tier.pick(12_000u32, 150_000u32);
     let stdio_every = ctx.tier.pick(12usize, 20usize);
     let counter = std::sync::atomic::AtomicUsize::new(0);
@@ -792,7 +826,11 @@ pub fn run(ctx: &Ctx) -> i32 {
         let ops = gen_history(stream);
         ev.eval();
         ev.label_n("steps", ops.len() as u64);
-        let o = run_inprocess(&ops)?;
+        // a failing history is saved together with its choice stream (that is what --replay reads)
+        let o = run_inprocess(&ops).map_err(|mut v| {
+            v.replay["stream"] = json!(stream);
+            v
+        })?;
         if o.nontrivial {
             ev.nontrivial(&format!("{ops:?}"));
         }
@@ -804,14 +842,18 @@ pub fn run(ctx: &Ctx) -> i32 {
             ev.label("stdio_replays");
             let tail: Vec<u32> = stream.iter().rev().take(100).copied().collect();
             let mut pacing = Dice::new(&tail);
+            let with_stream = |mut v: Violation| {
+                v.replay["stream"] = json!(stream);
+                v
+            };
             match run_stdio(&ops, &o.responses, &mut pacing) {
                 Ok(_) => {}
                 Err(v) if v.sig == "server-no-response" => {
                     // retry once in a fresh server before it counts
                     let mut pacing = Dice::new(&tail);
-                    run_stdio(&ops, &o.responses, &mut pacing).map(|_| ())?;
+                    run_stdio(&ops, &o.responses, &mut pacing).map(|_| ()).map_err(with_stream)?;
                 }
-                Err(v) => return Err(v),
+                Err(v) => return Err(with_stream(v)),
             }
         }
         Ok(())
